@@ -34,6 +34,12 @@ Known findings (compiled code, cannot be rebuilt here):
  KF-C06-range-limit-roundtrip / KF-C06-inf-roundtrip: elements near the double range limits or infinite are not
    restored by the in-place scale / unscale round trip (nondimensionalize=True).
 
+ Thorough tier: two shards run their workers with LD_PRELOAD=libasan.so against an AddressSanitizer build of all 23
+   extensions (tools/build_asan.py: shadow copy under out/, removed with it); an ASan report kills the worker
+   (abort_on_error) and its kind and innermost TidalPy frame go into the failure signature - e.g. the known surface
+   crash is reported as `stack-buffer-overflow in ..._cf_apply_surface_bc (boundaries.c:2718)`.  `C06_ASAN=1 ./check C06`
+   forces it for every shard.
+
 Sensitivity: generated C, tools/mut.py: the `finally` re-dimensionalisation removed; see DESIGN.md section 6.
 """
 import json
@@ -54,7 +60,7 @@ LEVEL = 'exploration'
 LEVEL_TEXT = ('Generated-input exploration with crash isolation: thousands of valid and malformed calls, each classified as '
               'returned / raised / died / hung, with the failure contract and byte-level input preservation checked on every path.')
 LEVEL_NOTE = ('The compiled solver is the binary present in /repo; memory errors that neither crash nor corrupt the observed '
-              'arrays are not detected in the quick tier (no sanitizer build).')
+              'arrays are detected only in the thorough tier (two shards run an AddressSanitizer build of the generated C).')
 CASES = {'quick': 1600, 'thorough': 60000}
 SHARDS = {'quick': 16, 'thorough': 16}
 HANG_S = 120.0
@@ -76,6 +82,35 @@ _next_id = 0
 _buf = b''
 
 
+_ASAN = {'on': False, 'dir': None, 'errlog': None}
+
+
+def shard_setup(tier):
+    """Thorough tier: two of the sixteen shards run their workers against an AddressSanitizer build of the extensions
+    (tools/build_asan.py, shadow copy outside /repo) so that memory errors that do not crash become visible."""
+    role = os.environ.get('VERIF_CACHE_ROLE', '')
+    want = os.environ.get('C06_ASAN') == '1' or (tier == 'thorough' and role[-2:] in ('00', '08'))
+    if not want or _ASAN['on']:
+        return
+    import fcntl
+    base = os.environ.get('VERIF_OUT_DIR') or os.path.join(env.VERIF, 'out')
+    dest = os.path.join(base, 'asan-%s' % env.source_hash())
+    os.makedirs(base, exist_ok=True)
+    lock = os.open(dest + '.lock', os.O_CREAT | os.O_RDWR, 0o644)
+    try:
+        fcntl.flock(lock, fcntl.LOCK_EX)
+        if not os.path.exists(os.path.join(dest, '.built')):
+            r = subprocess.run([env.PY, os.path.join(env.VERIF, 'tools', 'build_asan.py'), dest], stdin=subprocess.DEVNULL,
+                               capture_output=True, text=True, env=dict(os.environ, VERIF_REPO=env.REPO))
+            if r.returncode != 0:
+                raise HarnessError('ASan build failed: ' + (r.stdout + r.stderr)[-1500:])
+            open(os.path.join(dest, '.built'), 'w').write('ok')
+    finally:
+        fcntl.flock(lock, fcntl.LOCK_UN)
+        os.close(lock)
+    _ASAN.update(on=True, dir=dest)
+
+
 def _spawn():
     global _worker
     e = dict(os.environ)
@@ -83,8 +118,39 @@ def _spawn():
     e['VERIF_CACHE_ROLE'] = e.get('VERIF_CACHE_ROLE', 'C06') + '-worker'
     global _buf
     _buf = b''
+    err = subprocess.DEVNULL
+    if _ASAN['on']:
+        libasan = subprocess.run(['gcc', '-print-file-name=libasan.so'], capture_output=True, text=True).stdout.strip()
+        e.update(LD_PRELOAD=libasan, ASAN_OPTIONS='detect_leaks=0:abort_on_error=1:halt_on_error=1:allocator_may_return_null=1',
+                 VERIF_REPO=_ASAN['dir'])
+        e['VERIF_CACHE_ROLE'] += '-asan'
+        _ASAN['errlog'] = os.path.join(_ASAN['dir'], 'stderr-%d.log' % os.getpid())
+        err = open(_ASAN['errlog'], 'wb')
     _worker = subprocess.Popen([env.PY, '-u', '-m', 'props.rs_worker'], cwd=env.VERIF, env=e, stdin=subprocess.PIPE,
-                               stdout=subprocess.PIPE, stderr=subprocess.DEVNULL, bufsize=0)
+                               stdout=subprocess.PIPE, stderr=err, bufsize=0)
+
+
+def _asan_report():
+    """(kind, function) of the last AddressSanitizer report in the worker's stderr, or None."""
+    if not (_ASAN['on'] and _ASAN['errlog'] and os.path.exists(_ASAN['errlog'])):
+        return None
+    try:
+        txt = open(_ASAN['errlog'], 'rb').read().decode('utf-8', 'replace')
+    except OSError:
+        return None
+    i = txt.rfind('ERROR: AddressSanitizer:')
+    if i < 0:
+        return None
+    rep = txt[i:]
+    kind = rep.split('AddressSanitizer:')[1].split()[0]
+    where = 'unknown'
+    for line in rep.splitlines():
+        line = line.strip()
+        if line.startswith('#') and ' in ' in line and 'TidalPy' in line:
+            fn = line.split(' in ')[1].split()[0]
+            where = fn.split('_')[-1] if False else fn
+            break
+    return kind, where, rep[:1500]
 
 
 def _kill():
@@ -238,6 +304,9 @@ def evaluate(case):
     if known_hang and not case.get('witness'):
         return discard('excluded_known_finding', labels)        # never returns (known); not executed, counted
     wait = 20.0 if (known_hang and case.get('witness')) else HANG_S
+    if _ASAN['on']:
+        labels.append('asan')
+        wait = wait * 5.0
     kind, rep = _ask(case, wait)
     if kind == 'timeout':
         kind2, rep2 = _ask(case, wait)               # isolated confirmation run in a fresh worker
@@ -252,9 +321,16 @@ def evaluate(case):
         surface = 'liquid_dynamic' if liquid_dyn_surface else rc.kind_name(tuple(top))
         c.nontrivial = True
         c.label('outcome:died')
-        c.fail({'clause': 'crash', 'site': 'surface_bc' if liquid_dyn_surface else 'unknown', 'surface': surface,
-                'effect': 'crash', 'mut': mut if not liquid_dyn_surface else 'any'},
-               'worker died with return code %r while executing this call' % (rep,))
+        sig = {'clause': 'crash', 'site': 'surface_bc' if liquid_dyn_surface else 'unknown', 'surface': surface,
+               'effect': 'crash', 'mut': mut if not liquid_dyn_surface else 'any'}
+        detail = 'worker died with return code %r while executing this call' % (rep,)
+        ar = _asan_report()
+        if ar is not None:
+            sig['asan'] = ar[0]
+            sig['asan_where'] = ar[1]
+            detail += '\n' + ar[2]
+            c.label('asan_report')
+        c.fail(sig, detail)
         return c.result()
     if rep.get('harness_error') or not rep.get('built'):
         raise HarnessError('worker could not build the call: %r' % rep.get('harness_error'))
